@@ -77,12 +77,18 @@ def gen_cases(ctx):
 
 
 def run_cases(ctx, cases):
+    hung = mapgen.probe_cyclic(ctx, cases)        # no-hang assertion: a generator that does not come back is observed as exit=crash/hang
     b = pkgrun.Batch(ctx)
     for c in cases:
-        b.add(c)
+        if c["id"] not in hung:
+            b.add(c)
     out = b.execute()
     impl = {}
     for c in cases:
+        if c["id"] in hung:
+            impl[c["id"]] = {"exit": hung[c["id"]]}
+            c["detail"] = {"stderr": "shoot did not come back with exit 0 under a 3 GB / 60 s limit: " + hung[c["id"]], "compile": "skipped", "generated": {}}
+            continue
         r = out[c["id"]]
         im = {k: v for k, v in r["obs"].items() if k.startswith(KEYS_PREFIX) or k == "panic"}
         rcs = [x["rc"] for x in r["runs"]]
